@@ -187,13 +187,28 @@ def shift_pair(ck, F, rule="SHIFT-PAIR"):
                   "%s shifts a row descriptor under a guard comparing r with %s, expected %s" % (fn, sorted(guard_params), sorted(want)), f, l)
 
 
-def unit_bodies(F, b):
+def unit_bodies(F, b, helpers=False):
     """The body of a function followed by the bodies of the closures written in it (a `for` loop rewritten as an
-    iterator chain moves its statements there)."""
+    iterator chain moves its statements there); with helpers=True also the private functions of the same file that it
+    calls, and their closures (the body of a match arm moved into a helper)."""
     out = [b]
     for p in sorted(F.body_paths()):
         if p != b.path and F.heads[p].get("root") == b.path:
             out.append(F.body(p))
+    if helpers:
+        seen = {x.path for x in out}
+        for bb in list(out):
+            for bi, t in bb.calls():
+                c = bb.callee(t)
+                hc = F.heads.get(c) if c else None
+                if hc is None or not F.has(c) or c in seen or hc.get("file") != b.file or hc.get("vis") in ("pub",) or hc.get("bkind") != "fn":
+                    continue
+                seen.add(c)
+                out.append(F.body(c))
+                for p in sorted(F.body_paths()):
+                    if p != c and F.heads[p].get("root") == c and p not in seen:
+                        seen.add(p)
+                        out.append(F.body(p))
     return out
 
 
